@@ -8,11 +8,12 @@ import SqlizeModel.Driver.Version
 import SqlizeModel.Driver.Files
 import SqlizeModel.Driver.Exports
 import SqlizeModel.Driver.Race
+import SqlizeModel.Driver.History
 
 open Sqlize Sqlize.Driver
 
 def handlers : List (String × Handler) :=
-  [("snake", snakeHandler), ("pair", pairHandler), ("script", scriptHandler), ("hash", hashHandler), ("calls", callsHandler), ("version", versionHandler), ("versionexcl", versionExclHandler), ("files", filesHandler), ("filesread", filesReadHandler), ("filesmisc", filesMiscHandler), ("filesseq", filesSeqHandler), ("filesseqfast", filesSeqFastHandler), ("export", exportHandler), ("race", raceHandler)]
+  [("snake", snakeHandler), ("pair", pairHandler), ("script", scriptHandler), ("hash", hashHandler), ("calls", callsHandler), ("version", versionHandler), ("versionexcl", versionExclHandler), ("files", filesHandler), ("filesread", filesReadHandler), ("filesmisc", filesMiscHandler), ("filesseq", filesSeqHandler), ("filesseqfast", filesSeqFastHandler), ("export", exportHandler), ("race", raceHandler), ("history", historyHandler)]
 
 def handleLine (line : String) : String :=
   match SExp.parse line with
